@@ -329,3 +329,256 @@ Example close_once_nonvacuous :
                               LStart; LFeed (FErr SCEOF); LRelRead] = Some (s, oss) /\
     starts s = 2 /\ running s = false /\ count_close oss = 2 /\ closes s = 2.
 Proof. eexists. eexists. split; [vm_compute; reflexivity|]. vm_compute. auto. Qed.
+
+(** * C10.B3 whole messages: a response record is never empty *)
+Definition has_resp (t : task) : bool := match response_of t with Some _ => true | None => false end.
+Definition shape (t : task) : nat * bytes * option (Z * bytes) := (t_unit t, t_id t, t_pre t).
+Definition hr (x : nat * bytes * option (Z * bytes)) : bool :=
+  let '(_, id, pre) := x in
+  if is_nil id then match pre with Some (c, _) => (c =? ParseError)%Z || (c =? InvalidRequest)%Z | None => false end
+  else true.
+Definition ushape (u : nat) (sh : list (nat * bytes * option (Z * bytes))) : bool :=
+  existsb (fun x => (fst (fst x) =? u) && hr x) sh.
+
+Lemma has_resp_shape t : has_resp t = hr (shape t).
+Proof.
+  unfold has_resp, response_of, is_note, shape, hr.
+  destruct (is_nil (t_id t)); auto. destruct (t_pre t) as [[c m]|]; auto.
+  destruct ((c =? ParseError)%Z || (c =? InvalidRequest)%Z); auto.
+Qed.
+
+Lemma responses_nonempty ts : responses ts <> [] <-> existsb has_resp ts = true.
+Proof.
+  induction ts as [|t r IH]; cbn; [split; [congruence|discriminate]|].
+  unfold has_resp at 1. destruct (response_of t); cbn; [split; [auto|discriminate]|exact IH].
+Qed.
+
+Lemma existsb_filter {A} (p q : A -> bool) l : existsb p (filter q l) = existsb (fun x => q x && p x) l.
+Proof. induction l as [|x l IH]; cbn; auto. destruct (q x); cbn; rewrite IH; auto. Qed.
+
+Lemma existsb_map {A B} (h : A -> B) (p : B -> bool) l : existsb p (map h l) = existsb (fun x => p (h x)) l.
+Proof. induction l as [|x l IH]; cbn; auto. rewrite IH; auto. Qed.
+
+Lemma unit_resp_shape s u : existsb has_resp (unit_tasks s u) = ushape u (map shape (tasks s)).
+Proof.
+  unfold unit_tasks, ushape. rewrite existsb_filter, existsb_map.
+  apply existsb_ext_in || idtac.
+  induction (tasks s) as [|t r IH]; cbn; auto. rewrite IH, has_resp_shape. reflexivity.
+Qed.
+
+Definition inv_deliver (s : state) : Prop :=
+  forall u un, nth_error (units s) u = Some un -> u_st un = UAtDeliver -> ushape u (map shape (tasks s)) = true.
+
+(* tasks keep their unit, id and pre-error and are only ever appended; no unit becomes UAtDeliver *)
+Definition tu_ext (s s' : state) : Prop :=
+  (exists extra, map shape (tasks s') = map shape (tasks s) ++ extra) /\
+  (forall u un', nth_error (units s') u = Some un' -> u_st un' = UAtDeliver ->
+     exists un, nth_error (units s) u = Some un /\ u_st un = UAtDeliver).
+
+Lemma tu_ext_inv s s' : tu_ext s s' -> inv_deliver s -> inv_deliver s'.
+Proof.
+  intros [(ex & E) U] I u un' N St. destruct (U _ _ N St) as (un & N0 & St0).
+  unfold ushape. rewrite E, existsb_app. apply orb_true_iff. left. apply (I _ _ N0 St0).
+Qed.
+
+Lemma tu_ext_refl s : tu_ext s s.
+Proof. split; [exists []; rewrite app_nil_r; auto|eauto]. Qed.
+
+Lemma tu_ext_trans s1 s2 s3 : tu_ext s1 s2 -> tu_ext s2 s3 -> tu_ext s1 s3.
+Proof.
+  intros [(e1 & E1) U1] [(e2 & E2) U2]. split.
+  - exists (e1 ++ e2). rewrite E2, E1, app_assoc. auto.
+  - intros u un N St. destruct (U2 _ _ N St) as (un2 & N2 & St2). eauto.
+Qed.
+
+Lemma tu_ext_same s s' : tasks s' = tasks s -> units s' = units s -> tu_ext s s'.
+Proof. intros E1 E2. split; rewrite ?E1, ?E2; [exists []; rewrite app_nil_r; auto|eauto]. Qed.
+
+Lemma tu_ext_upd s s' k f :
+  tasks s' = upd_nth k f (tasks s) -> units s' = units s -> (forall t, shape (f t) = shape t) -> tu_ext s s'.
+Proof.
+  intros E1 E2 F. split; rewrite ?E1, ?E2; [|eauto].
+  exists []. rewrite app_nil_r. apply map_upd_nth_same; auto.
+Qed.
+
+Lemma cancel_task_tu k s : tu_ext s (cancel_task k s).
+Proof.
+  unfold cancel_task. destruct (nth_error (tasks s) k) as [t|]; [|apply tu_ext_refl].
+  assert (A : tu_ext s (s <| tasks ::= upd_nth k (fun t => t <| t_cancelled := true |>) |>)).
+  { eapply tu_ext_upd; try reflexivity. }
+  destruct (t_st t); auto.
+  eapply tu_ext_trans; [exact A|]. eapply tu_ext_upd; try reflexivity.
+Qed.
+
+Lemma grant_tu : forall fuel s acc s' os, grant fuel s acc = (s', os) -> tu_ext s s'.
+Proof.
+  induction fuel as [|f IH]; cbn; intros s acc s' os H.
+  - injection H as <- <-; apply tu_ext_refl.
+  - destruct (sem_wait s) as [|k r]; [injection H as <- <-; apply tu_ext_refl|].
+    destruct (sem_free s) as [|fr]; [injection H as <- <-; apply tu_ext_refl|].
+    destruct (nth_error (tasks s) k) as [t|]; [|injection H as <- <-; apply tu_ext_refl].
+    destruct (t_builtin t); apply IH in H; (eapply tu_ext_trans; [|exact H]); eapply tu_ext_upd; reflexivity.
+Qed.
+
+Lemma release_ids_tu : forall ts s, tu_ext s (release_ids ts s).
+Proof.
+  induction ts as [|t r IH]; cbn; intros s; [apply tu_ext_refl|].
+  eapply tu_ext_trans; [|apply IH].
+  destruct (t_hasctx t && negb (is_note t)); [|apply tu_ext_refl].
+  destruct (assoc (t_id t) (used s)); [|apply tu_ext_refl].
+  eapply tu_ext_trans; [apply cancel_task_tu|]. apply tu_ext_same; reflexivity.
+Qed.
+
+Lemma fold_cancel_tu : forall (l : list (bytes * nat)) s, tu_ext s (fold_left (fun st p => cancel_task (snd p) st) l s).
+Proof.
+  induction l as [|p l IH]; cbn; intros s; [apply tu_ext_refl|].
+  eapply tu_ext_trans; [apply cancel_task_tu|apply IH].
+Qed.
+
+Lemma dequeue_tu s : tu_ext s (dequeue s).
+Proof.
+  unfold dequeue. destruct (inq s) as [|[b ms] q].
+  - destruct (running s); apply tu_ext_same; reflexivity.
+  - split; cbn.
+    + rewrite map_app. eauto.
+    + intros u un' N St. apply nth_error_snoc in N as [N|[_ ->]]; [eauto|discriminate St].
+Qed.
+
+Lemma set_unit_tu i st s s' :
+  tasks s' = tasks s -> units s' = upd_nth i (fun x => x <| u_st := st |>) (units s) -> st <> UAtDeliver -> tu_ext s s'.
+Proof.
+  intros E1 E2 Ne. split; rewrite ?E1, ?E2; [exists []; rewrite app_nil_r; auto|].
+  intros u un' N St. rewrite nth_error_upd_nth in N. destruct (i =? u); [|eauto].
+  destruct (nth_error (units s) u); cbn in N; [|discriminate]. injection N as <-. cbn in St. congruence.
+Qed.
+
+Lemma stop_locked_tu sc s : tu_ext s (fst (stop_locked sc s)).
+Proof.
+  unfold stop_locked. destruct (negb (running s)); cbn [fst]; [apply tu_ext_refl|].
+  match goal with |- context [fold_left ?f ?l ?s3] =>
+    pose proof (fold_cancel_tu l s3) as P; remember (fold_left f l s3) as s4 eqn:E4; clear E4 end.
+  assert (A : tu_ext s s4).
+  { eapply tu_ext_trans; [|exact P]. destruct (work_closed _); apply tu_ext_same; reflexivity. }
+  destruct (c_unblock _); (eapply tu_ext_trans; [exact A|apply tu_ext_same; reflexivity]).
+Qed.
+
+Lemma sbc_tu s s' : same_but_cb s s' -> tu_ext s s'.
+Proof. intros H. apply sbc_fields in H. apply tu_ext_same; tauto. Qed.
+
+Lemma read_cs_tu f s : tu_ext s (fst (read_cs f s)).
+Proof.
+  destruct (read_cs f s) as [s' os] eqn:E. cbn [fst]. unfold read_cs in E.
+  destruct f as [i|i|sc].
+  1,2: destruct (negb (running s)); [injection E as <- <-; apply tu_ext_same; reflexivity|];
+       destruct i as [|b ms]; [cbn in E; injection E as <- <-; apply tu_ext_same; reflexivity|];
+       destruct ms as [|m0 ms0]; [cbn in E; injection E as <- <-; apply tu_ext_same; reflexivity|];
+       pose proof (filter_batch_sbc (m0 :: ms0) s [] []) as SB;
+       destruct (filter_batch (m0 :: ms0) s [] []) as [[s1 keep] os1]; cbn [fst] in SB; apply sbc_tu in SB;
+       destruct keep; [injection E as <- <-; (eapply tu_ext_trans; [exact SB|apply tu_ext_same; reflexivity])|];
+       match type of E with (if ?b then _ else _) = _ => destruct b end; injection E as <- <-;
+       (eapply tu_ext_trans; [exact SB|apply tu_ext_same; reflexivity]).
+  pose proof (stop_locked_tu sc s) as P. destruct (stop_locked sc s) as [s2 os2]. cbn [fst] in P.
+  injection E as <- <-. eapply tu_ext_trans; [exact P|apply tu_ext_same; reflexivity].
+Qed.
+
+Lemma raw_tu s l s' os : step_raw s l = Some (s', os) -> tu_ext s s'.
+Proof.
+  intros H. destruct l; cbn [step_raw] in H.
+  - destruct (negb (running s) && (wg s =? 0)); [|discriminate]. injection H as <- <-. apply tu_ext_same; reflexivity.
+  - injection H as <- <-. apply tu_ext_same; reflexivity.
+  - injection H as <- <-. apply tu_ext_same; reflexivity.
+  - destruct (find_idx _ 0 (tasks s)) as [k|]; [|discriminate].
+    destruct (nth_error (tasks s) k); [|discriminate]. injection H as <- <-.
+    eapply tu_ext_upd; reflexivity.
+  - injection H as <- <-. apply tu_ext_same; reflexivity.
+  - injection H as <- <-. apply tu_ext_same; reflexivity.
+  - destruct (c_push s); injection H as <- <-; apply tu_ext_same; reflexivity.
+  - injection H as <- <-. apply tu_ext_same; reflexivity.
+  - destruct (find_idx _ 0 (cbs s)); injection H as <- <-; apply tu_ext_same; reflexivity.
+  - destruct (rd s) as [| |f|]; try discriminate. injection H as H.
+    pose proof (read_cs_tu f s) as P. rewrite H in P. exact P.
+  - destruct (dp s); try discriminate. injection H as <- <-. apply dequeue_tu.
+  - destruct (dp s); try discriminate. injection H as <- <-. apply tu_ext_same; reflexivity.
+  - destruct (nth_error (tasks s) k) as [t|]; [|discriminate].
+    destruct (t_st t); try discriminate.
+    destruct (negb (unit_running s t)); [discriminate|].
+    destruct (t_cancelled t); [injection H as <- <-; eapply tu_ext_upd; reflexivity|].
+    destruct (sem_free s) as [|fr]; [injection H as <- <-; eapply tu_ext_upd; reflexivity|].
+    destruct (sem_wait s); [|injection H as <- <-; eapply tu_ext_upd; reflexivity].
+    destruct (t_builtin t); injection H as <- <-; eapply tu_ext_upd; reflexivity.
+  - destruct (nth_error (tasks s) k) as [t|]; [|discriminate].
+    destruct (t_st t); try discriminate.
+    match type of H with context [grant ?f ?s1 []] => destruct (grant f s1 []) as [s2 os2] eqn:G end.
+    apply grant_tu in G.
+    assert (A : tu_ext s s2) by (eapply tu_ext_trans; [|exact G]; eapply tu_ext_upd; reflexivity).
+    destruct (is_note t); [destruct (nbar s2)|]; injection H as <- <-; auto;
+      (eapply tu_ext_trans; [exact A|apply tu_ext_same; reflexivity]).
+  - destruct (nth_error (units s) u) as [un|] eqn:U; [|discriminate].
+    destruct (u_st un) eqn:St; try discriminate.
+    pose proof (release_ids_tu (unit_tasks s u) s) as P.
+    destruct (negb (u_chok un)); injection H as <- <-; (eapply tu_ext_trans; [exact P|]).
+    + apply tu_ext_same; reflexivity.
+    + eapply set_unit_tu with (i := u) (st := UFinished); try reflexivity. discriminate.
+  - destruct (find_op n (ops s)) as [[| |]|]; try discriminate.
+    pose proof (stop_locked_tu SCStop (s <| ops ::= del_op n |>)) as P.
+    destruct (stop_locked SCStop _) as [s2 os2]. injection H as <- <-.
+    eapply tu_ext_trans; [|exact P]. apply tu_ext_same; reflexivity.
+  - destruct (find_op n (ops s)) as [[| |]|]; try discriminate. cbn in H.
+    destruct (assoc id (used s)); injection H as <- <-; [|apply tu_ext_same; reflexivity].
+    eapply tu_ext_trans; [|apply cancel_task_tu]. apply tu_ext_same; reflexivity.
+  - destruct (find_op n (ops s)) as [[| |n' w m p]|]; try discriminate. cbn in H.
+    destruct (running s); cbn in H; [|injection H as <- <-; apply tu_ext_same; reflexivity].
+    destruct w; [destruct (send_fail s)|]; injection H as <- <-; apply tu_ext_same; reflexivity.
+  - destruct (nth_error (cbs s) c) as [cb0|] eqn:N; [|discriminate].
+    destruct (cb_watch cb0); try discriminate.
+    destruct (assoc _ _); [|injection H as <- <-; apply tu_ext_same; reflexivity].
+    destruct (cb_slot cb0); [injection H as <- <-; apply tu_ext_same; reflexivity|].
+    destruct (_ =? _); [|injection H as <- <-; apply tu_ext_same; reflexivity].
+    assert (E : exists v s1, tu_ext s s1 /\ complete_cb c v s1 = (s', os)).
+    { destruct (cb_ctx cb0) as [[|]|]; injection H as H; eexists; eexists; (split; [|exact H]); apply tu_ext_same; reflexivity. }
+    destruct E as (v & s1 & E1 & E).
+    pose proof (complete_cb_sbc c v s1) as SB. rewrite E in SB. cbn [fst] in SB.
+    eapply tu_ext_trans; [exact E1|apply sbc_tu; exact SB].
+Qed.
+
+Lemma inv_deliver_reachf c s : reachf c s -> inv_deliver s.
+Proof.
+  induction 1 as [|s l s' os R IH C H|s s' os R IH H].
+  - intros [|u] un N; discriminate.
+  - eapply tu_ext_inv; [eapply raw_tu; eauto|auto].
+  - apply settle1_inv in H. destruct H.
+    + eapply tu_ext_inv; [|exact IH]. apply tu_ext_same; reflexivity.
+    + eapply tu_ext_inv; [|exact IH]. apply dequeue_tu.
+    + eapply tu_ext_inv; [|exact IH]. eapply set_unit_tu with (i := u) (st := URunning); try reflexivity. discriminate.
+    + eapply tu_ext_inv; [|exact IH]. eapply set_unit_tu with (i := i) (st := UFinished); try reflexivity. discriminate.
+    + (* the one place a unit becomes UAtDeliver: its responses are non-empty *)
+      intros u un' N St.
+      change (ushape u (map shape (tasks s)) = true).
+      change (nth_error (upd_nth i (fun x => x <| u_st := UAtDeliver |>) (units s)) u = Some un') in N.
+      rewrite nth_error_upd_nth in N. destruct (Nat.eqb_spec i u) as [->|Ne].
+      * rewrite <- unit_resp_shape. apply responses_nonempty. auto.
+      * eapply IH; eauto.
+    + eapply tu_ext_inv; [|exact IH]. apply tu_ext_same; reflexivity.
+    + eapply tu_ext_inv; [|exact IH]. apply tu_ext_same; reflexivity.
+Qed.
+
+Lemma deliver_nonempty c s u un :
+  reach c s -> nth_error (units s) u = Some un -> u_st un = UAtDeliver -> responses (unit_tasks s u) <> [].
+Proof.
+  intros R N St. apply responses_nonempty. rewrite unit_resp_shape.
+  eapply inv_deliver_reachf; eauto. apply reach_reachf; eauto.
+Qed.
+
+Lemma whole_messages c s l s' os ok b rs :
+  reach c s -> step s l = Some (s', os) -> In (OSend ok b rs) os -> rs <> [].
+Proof.
+  intros R H I.
+  destruct (sends_in_critical_sections _ _ _ _ H) as (s1 & os1 & _ & _ & C & _).
+  assert (I' : In (OSend ok b rs) (filter is_chan_op os)) by (apply filter_In; split; auto).
+  destruct C; cbn in I'; try tauto.
+  - destruct I' as [I'|[]]; discriminate.
+  - destruct I' as [I'|[]]. injection I' as <- <- <-. discriminate.
+  - destruct I' as [I'|[]]. injection I' as <- <- <-. eapply deliver_nonempty; eauto.
+  - destruct I' as [I'|[]]; discriminate.
+  - destruct I' as [I'|[]]; discriminate.
+Qed.
